@@ -55,6 +55,19 @@ def bsplineBasisW (nk npts xlen order : Nat) : Out :=
         inInt .basisK (col * npts + row + 1)],      -- k++
       inInt .basisCol (col + 1)]]                   -- col++
 
+/-- `bsplinebasis` with fixes/C13-7.diff (proposed): `size_t row, col, k`.  The counters can no longer overflow before the
+    loop bounds (`npts`, `nsplines`, and `npts*nsplines`, all `size_t`) do; `col` is still passed to `bspline` as an `int`. -/
+def bsplineBasisW64 (nk npts xlen order : Nat) : Out :=
+  let ns := nsplinesOf nk order
+  seqAll [
+    inInt .orderInt order,
+    forN ns fun col => forN npts fun row => seqAll [
+      rd .coordsX xlen row,
+      inInt .basisCol col,                          -- `col` → `int i` of bspline
+      inInt .knotIdxInt (col + order + 1),
+      bsplineReads nk order col,
+      rd .basisX ((npts * ns) % U64) (col * npts + row)]]
+
 /-- `calc_penalty` with `uint32_t order, porder`, `long row`, and the call `divided_diffs(int order, int porder, int j, …)`.
     Inside `divided_diffs` every index is an `int` expression; the largest one over the whole recursion is
     `j + porder + order` (`knots[j'+order+1]` with `j' = j + porder - 1`), checked once per row (conservative by at most
